@@ -54,8 +54,13 @@ def part_encode(chk):
     n = 0
     for r in record_alphabet():
         n += 1
-        enc = encode_record(r)
-        back = parse_record(enc)
+        try:
+            enc = encode_record(r)
+            back = parse_record(enc)
+        except Exception as e:
+            viol.append(dict(oracle="encode-parse", sig="%s:raises:%s" % (type(r).__name__, type(e).__name__),
+                             msg="%s: encode/parse raised %r" % (repr(r)[:80], e)))
+            continue
         keys.add((type(r).__name__, len(enc)))
         if back != r or type(back) is not type(r):
             viol.append(dict(oracle="encode-parse", sig=type(r).__name__, msg="%r -> %d bytes -> %r" % (repr(r)[:80], len(enc), repr(back)[:80])))
